@@ -98,7 +98,21 @@ def run(ctx):
             under_err = any(a['k'] == 'IfStmt' and (g.s(a['cond']).endswith('->error') or any(c.get('callee') in IO_SETS_ERROR for c in g.calls(root=a['cond'])))
                             for a in g.ancestors(r))
             # error set by a callee that failed: `if (psf_fseek (...) ...)`; accept when a call that may set the error dominates
-            w = None if (same or under_err) else g.cfg.path_avoiding((g.cfg.entry, -1), {rp[0]}, avoid)
+            bdg = Bounds(prog, g, eff)
+
+            def edge_ok(b_, si_, g=g, bdg=bdg):
+                # an edge on which the guard implies psf->error != 0 is not part of a path "without an error recorded"
+                blk_ = g.cfg.blocks[b_]
+                if 'cond' not in blk_ or len(blk_['succs']) != 2 or blk_.get('tk') == 'SwitchStmt':
+                    return True
+                cn_ = g.N[blk_['cond']]
+                if g.unwrap(cn_).get('op') in ('&&', '||') and blk_['elems']:
+                    cn_ = g.N[blk_['elems'][-1]]
+                for (l_, op_, r_) in bdg.guard_facts(cn_, si_ == 0):
+                    if isinstance(l_, dict) and bdg._lv_str(l_).endswith('->error') and op_ == '!=' and (r_ is None or g.unwrap(r_).get('v') == 0):
+                        return False
+                return True
+            w = None if (same or under_err) else g.cfg.path_avoiding((g.cfg.entry, -1), {rp[0]}, avoid, edge_ok=edge_ok)
             ctx.ob('SEEK-ERR', '%s:return@%d' % (g.name, k), w is None, g.loc(r), 'return -1 %s' % ('always with an error recorded' if w is None else
                    'reachable WITHOUT recording an error: lines %s' % g.cfg.block_lines(w)), None)
 
@@ -134,4 +148,19 @@ def run(ctx):
              'that calls it: after a seek the decoded samples depend on the frame position only, not on what was decoded before', floor=8)
     from engine.stateless import decode_state
     ctx.require(decode_state(ctx, prog) >= 8, 'too few decoder / seek pairs found')
+
+    ctx.rule('SEEK-RESULT', 'sf_seek stores the result of the codec seek into read_current / write_current only when it is non-negative: at every such store A-PENT proves retval >= 0 '
+             '(a failed seek must leave both positions as they were)', floor=3)
+    from engine.bounds import Bounds as _Bd
+    from engine.util import assigned_lvalues as _al2
+    sk = prog.fn('sf_seek', 'sndfile.c')
+    bd_ = _Bd(prog, sk, eff)
+    nst = 0
+    for lv, a, r in _al2(sk):
+        if lv in ('psf->read_current', 'psf->write_current') and r is not None and sk.s(sk.unwrap(r)) == 'retval':
+            nst += 1
+            b = bd_.ev_at(sk.unwrap(r), sk.cfg.point(a))
+            ok = b.lo is not None and b.lo >= 0
+            ctx.ob('SEEK-RESULT', '%s#%d' % (lv, nst), ok, sk.loc(a), '%s = retval with retval >= %s%s' % (lv, b.lo, '' if ok else ' — PSF_SEEK_ERROR (-1) from a failed codec seek becomes the position'), repr(b))
+    ctx.require(nst >= 3, 'only %d stores of the codec seek result found in sf_seek' % nst)
 
